@@ -558,6 +558,9 @@ func (r *Runner) contractCall(st *State, f *Frame, sp *FuncSpec, callee *ssa.Fun
 		rec.post = r.shadow(st) // state right after the call, for mapsamesince()
 	}
 	st.lastCall[short] = rec
+	if r.recorded != nil {
+		r.recorded[short] = true
+	}
 	st.ghost["calls:"+short] = st.define("calls", Add(r.callsTerm(st, short), One))
 }
 
